@@ -436,3 +436,10 @@ def run(rep: Report, prog: Program, tier: str) -> None:
     rep.floor("R17.1", 25)
     rep.floor("R17.2", 7)
     rep.floor("R17.3", 10)
+    rep.rule("R17.4", "what each atomic operation does is what the statement names: with R17.1-R17.3 every interleaving equals a sequential order, so `two racing probes are never both admitted` and `racing failures open the circuit exactly once` hold iff they hold sequentially - allow() claims the single probe slot when it admits in HALF_OPEN and rejects while it is taken, record_failure() opens once and reports nothing more while OPEN (= the transition table of C07 R7.1 / C06 R6.1)")
+    from .breaker_table import check_method
+
+    check_method(rep, "R17.4", prog, "allow")
+    for m in ("record_success", "record_failure", "record_cancel"):
+        check_method(rep, "R17.4", prog, m, row_filter=lambda v: v["ST"] in ("HALF_OPEN", "OPEN"))
+    rep.floor("R17.4", 18)
